@@ -239,8 +239,28 @@ func (c *Ctx) execInstr(in ssa.Instruction, st *State) {
 		}
 		c.drop("select")
 		c.set(x, v)
+		// sends offered as select cases are rule events (callee "chansend(T.field)"), taken
+		// exactly when the select answers that case's index
+		nrecv := 0
+		for k, s := range x.States {
+			taken := sEq(v.F[0].S, c.intConst(big.NewInt(int64(k)), types.Typ[types.Int]))
+			if s.Dir == types.SendOnly {
+				if name := chanFieldName(s.Chan); name != "" {
+					c.applyChanRules("chansend", name, c.operand(s.Send, st), taken, st)
+				}
+			} else {
+				// receives likewise (callee "chanrecv(T.field)", a0 = the value received)
+				if name := chanFieldName(s.Chan); name != "" && 2+nrecv < len(v.F) {
+					c.applyChanRules("chanrecv", name, v.F[2+nrecv], taken, st)
+				}
+				nrecv++
+			}
+		}
 	case *ssa.Send:
 		c.drop("send")
+		if name := chanFieldName(x.Chan); name != "" {
+			c.applyChanRules("chansend", name, c.operand(x.X, st), "true", st)
+		}
 	case *ssa.SliceToArrayPointer:
 		sv := c.operand(x.X, st)
 		c.drop("slice-to-array-pointer")
@@ -1060,7 +1080,7 @@ func (c *Ctx) makeIface(v *Val, t types.Type) *Val {
 		return &Val{K: VScalar, T: t, S: c.define("iface", "Int", s)}
 	}
 	if len(args) == 0 {
-		n := fn + "!c"
+		n := quoteSym("mkiface|" + typeKey(v.T) + "|c")
 		c.declare(n, "Int")
 		c.asserts = append(c.asserts, sNot(sEq(n, "0")))
 		return &Val{K: VScalar, T: t, S: n}
